@@ -32,6 +32,11 @@ CLAIMED = {
             "Trusted: the interpreter with frames; call output variables are read only right after the call; runs in which a condition would read an unconstrained value are counted inconclusive, not passed.",
             "deterministic simulation: seeded call/return histories (early return, recursion, re-call) and injected command errors vs reference interpreter with frames",
             "DESIGN.md section 3 C05, Appendix D.2"),
+    "C10": ("exploration",
+            "Seeded programs over the real SDK in which an error is raised at arbitrary instructions: by failing commands, by the decorator failing an arbitrary leaf command (buggify) and by failing an inner command of a script-implemented command; exit_on_error is toggled mid-script and last-error probes are placed at random later points; text, file and included-file configurations. The oracle is the decorator's own record of every depth-0 Error (message, instruction, source line and file): handler arguments, output variable 'false', continuation at the next instruction, probe answers (latest error wins) and the fatal failure carrying message and line are checked against it.",
+            "Trusted: the decorator's classification of depth-0 instructions and handler invocations; the (line, source) tags of parsed instructions (C14 checks those). Flow-control and condition commands are never fault points.",
+            "deterministic simulation: error injection at arbitrary instructions and nested invocations (buggify), recorded ground truth vs last-error queries / run result",
+            "DESIGN.md section 3 C10"),
     "C11": ("exploration",
             "Seeded operation histories over the variable and scope-stack commands, one run_instruction call per operation on harness-owned state; after every step the output class and the entire variable map are compared with a map plus a stack of maps. The faults are refused operations (pop of an empty stack must change nothing, --copy of undefined or repeated names, missing arguments) and the hash order of every map involved. Thin fault space, said plainly.",
             "Trusted: the model table of DESIGN Appendix D.3; success output of push/pop unconstrained; a name undefined when copied on pop becomes unconstrained (as the property states).",
